@@ -463,7 +463,14 @@ def search_det(chk, case, o, stats):
         case["instrs"][0]["args"]["n"], tuple(case["expected"]),
         o.get("error_text") if got is None else [(tuple(int(fr(v)) for v in oc), str(f)) for oc, f in got][:4])
     full_unsorted = [s for s in case["instrs"] if s["k"] == "PNM" and len(s["modes"]) > 1 and s["modes"] != sorted(s["modes"])]
-    if case["sim"] == "passive" and full_unsorted and not case.get("skipped_measurement"):
+    npnm = sum(1 for s in case["instrs"] if s["k"] == "PNM")
+    if case["sim"] == "passive" and case["shots"] is None and npnm >= 2 and not case.get("skipped_measurement"):
+        # same root cause as the sequential-vs-joint failures: after a mid-circuit measurement
+        # the lazily post-selected PassiveState is handed register positions where it expects
+        # its own mode labels (spurious "postselected modes" exception or the marginal of the
+        # wrong modes) and returns joint instead of conditional probabilities
+        chk.violation(K_PASSIVE_SEQ, "PassiveSimulator, shots=None, measurement after a mid-circuit measurement: " + what, {"case": case})
+    elif case["sim"] == "passive" and full_unsorted and not case.get("skipped_measurement"):
         chk.violation(K_PASSIVE_ORDER, "PassiveSimulator: a particle-number measurement on modes given in non-ascending order returns the sample in ascending mode order when no mode is left over (the other simulators, and the passive simulator's own marginal path, follow the given order): " + what,
                       {"case": case})
     elif case.get("skipped_measurement"):
